@@ -70,9 +70,12 @@ def repeated_tag_only(v):
 
 @classifier
 def realign_worker_killed_in_delivery(v):
-    """C13/K1: the parent never exits after a worker was killed while a result was partially
-    written to the shared queue pipe, or while it held the queue's writer lock."""
+    """C13/K1: the parent never exits because a worker died abruptly (no clean-up: SIGKILL, SIGSEGV,
+    os._exit) while a result was partially written to the shared queue pipe: the structural
+    diagnosis shows the parent blocked in read() on the queue pipe whose only remaining writer is
+    the parent itself. Keyed by that structure, not by the input or the injected fault label."""
     w = v["witness"]
-    return (v["kind"] == "hang_proven_deadlock"
-            and w.get("fault_point") in ("in_pipe_write", "holding_writer_lock")
-            and w.get("fault_kind") == "SIGKILL")
+    d = w.get("diag") or {}
+    return (v["kind"] == "hang_proven_deadlock" and d.get("proven_deadlock") is True
+            and d.get("mechanism") == "partial_message_in_pipe"
+            and w.get("fault_kind") in ("SIGKILL", "SIGSEGV", "exit3"))
